@@ -123,8 +123,8 @@ theorem unanchored_build_only_site (cfg : Config) (env : Env) (ws : List Str) (e
 
 /-- **C07 (validity, default settings, all inputs)** the returned text is accepted by the model of `Regex::new` -/
 theorem default_output_valid (cap : Bool) (env : Env) (ws : List Str) (st : Stages)
-    (h : regExpFrom (cfgPlain cap) env ws = .ok st) (hseg : ∀ w ∈ ws, SegOK env w) :
-    ∃ P, Spec.parse (fmtRegExp (cfgPlain cap) st.finalAst) = some (⟨false, false⟩, P) :=
+    (h : regExpFrom (cfgPlain cap false) env ws = .ok st) (hseg : ∀ w ∈ ws, SegOK env w) :
+    ∃ P, Spec.parse (fmtRegExp (cfgPlain cap false) st.finalAst) = some (⟨false, false⟩, P) :=
   default_valid cap env ws st h hseg
 
 /-! ## syntactic validity at the literal level (generated escape lists) -/
